@@ -173,6 +173,14 @@ def sampler_selection(repo, chk, prefix):
         inc_seen = False
         for u in res.updates:
             obj = _counter_of(fn, u['target'])
+            # for c, n in Counter(SEL).items(): counter[c] += n     is     for c in SEL: counter[c] += 1   (each occurrence counted once)
+            if obj is not None and u['kind'] == 'foreach' and u.get('op') == 'inc' and u.get('method') == 'Add' and u.get('guard') is None and len(u.get('chain', [])) == 1:
+                from .common import loop_terms
+                ch_, key_, val_, _g, _a, _t = loop_terms(fn, u, bound)
+                if key_ == ('lvar', 0, 0) and val_ == ('lvar', 0, 1) and ch_[0][0] == 'call' and ch_[0][1][0] == 'attr' and ch_[0][1][2] == 'items' and ch_[0][1][1][0] == 'call' \
+                        and ch_[0][1][1][1] == ('lib', 'collections.Counter') and len(ch_[0][1][1][2]) == 1:
+                    inner = u['chain'][0][1].func.value.args[0]
+                    u = dict(u, kind='incall', op='Add', over=inner, value=ast.Constant(1))
             if obj is None:
                 tt = ast.unparse(u['target'])
                 if 'GLOBAL_PRIOR' in tt or (cparam and cparam in tt):
@@ -375,6 +383,10 @@ def duplicate_free(repo, chk):
             for b in cs[i + 1:]:
                 if _overlap(a, b):
                     dup = (a, b)
+        if dup is not None and any(str(c.colset).startswith('?') for c in dup):
+            # one of the two column sets is not known (e.g. a local that is a list on one path and empty on another): overlap is not decided
+            chk.unsure('C07.7', 'pair-set', site, desc, f'whether {dup[0]!r} and {dup[1]!r} can produce the same pair depends on a column set this rule could not determine')
+            continue
         chk.expect(dup is None, 'C07.7', 'pair-set', site, desc, 'candidate list is duplicate-free by construction',
                    f'contributions {dup[0]!r} and {dup[1]!r} produce the same pairs: duplicate candidates are scored twice and counted twice per batch' if dup else '')
     # interaction candidates
